@@ -88,6 +88,8 @@ class RefRun:
         self.stop_at = stop_at
         self.failed_stmt = None
         self.nwrites = {}
+        self.kind = {}
+        self.flagmixed = set()
 
     # -- helpers
     def tok(self, h):
@@ -166,6 +168,7 @@ class RefRun:
             a = a.astype(np.float64)
         self.env[h] = self._cast(a).copy(order="K") if self.cplx else a
         self.is_tensor[h] = LEAF_IS_TENSOR[st["kind"]]
+        self.kind[h] = st["kind"]
         const = not (st["kind"] == "var" and st.get("constant") is not True)
         self._new_owner(h, idx, const, frozenset(), self.env[h].shape)
 
@@ -196,6 +199,14 @@ class RefRun:
                 if np.shares_memory(res, self.env[a]):
                     parent = a
                     break
+            if parent is not None and self.kind.get(parent) in ("scalar", "intscalar"):
+                parent = None  # python scalars are copied into a fresh array: never a view
+                res = res.copy()
+            elif parent is not None and not const and self.const[self.owner[parent]]:
+                # a non-constant view of constant memory (explicit constant=False): its gradient is its own
+                parent = None
+                res = res.copy()
+                self.flagmixed.add(h)
         if self.cplx and const and parent is None:
             res = res.real.astype(np.complex128)
         elif self.cplx and const and parent is not None and not self.const[parent]:
@@ -425,6 +436,7 @@ class Expected:
         self.vmax = 0.0
         self.ref = None
         self.ncomplex = 0
+        self.lenient = set()
 
 
 def expected_after_backward(prog, L, seed=None, upto=None, max_elems=400):
@@ -474,6 +486,10 @@ def expected_after_backward(prog, L, seed=None, upto=None, max_elems=400):
             exp.grads[h] = None
         else:
             exp.grads[h] = own_grad[o][real.imap[h]].reshape(real.env[h].shape)
+            if o in real.flagmixed and o != h:
+                # views of a non-constant view of constant memory: MyGrad's .base is the constant owner, so
+                # "the view of base.grad" is None; both readings are accepted
+                exp.lenient.add(h)
     return exp
 
 
@@ -514,12 +530,12 @@ def compare_grads(exp, mgrun, handles=None, dtype=np.float64, check_values=True)
                 return Mismatch("grad_not_none", f"h{h}: expected no gradient, got {np.asarray(g).tolist()!r}"[:300], h=h)
             continue
         if g is None:
-            if not np.any(eg):
+            if not np.any(eg) or h in exp.lenient:
                 continue  # reference gradient identically zero: None and zeros both mean "no contribution"
             return Mismatch("grad_none", f"h{h}: expected a gradient, got None", h=h)
         if g.shape != t.shape or g.shape != eg.shape:
             return Mismatch("grad_shape", f"h{h}: grad shape {g.shape}, tensor {t.shape}", h=h)
-        if kink or illcond:
+        if kink or illcond or h in exp.lenient:
             continue
         if not np.allclose(g, eg, rtol=rtol, atol=atol, equal_nan=False):
             with np.errstate(all="ignore"):
